@@ -99,7 +99,18 @@ def step (_ : Unit) (ts : List String) : Unit × String :=
       | some req => hex (serverHandshake req)
       | none => "bad-op"
     -- full duplex: data frames written by send() and pongs written by receive(), as the peer parses them
-    | ["duplex", role, st, nmsg, size, seed, nping] =>
+    -- a copy taken during a send() of another thread sends afterwards: both frames whole
+    | ["copysend", role, st, size] => match roleOf role, unhex st, size.toNat? with
+      | some ic, some s, some sz =>
+        if sz < 1 || sz > 8388608 then "bad-op" else
+        let one (p : List UInt8) : String := match sendFrame ic (rngOf s) 2 p with
+          | some (bytes, _) => (match readFrame 0 (bytes ++ [0]) with
+              | .ok _ _ buf _ => s!"{buf.length}:{showBytes buf}"
+              | _ => "FAULT")
+          | none => "FAULT"
+        s!"data=2 {one ((List.range sz).map fun j => UInt8.ofNat (j % 251))},{one [104, 101, 108, 108, 111]}"
+      | _, _, _ => "bad-op"
+    | "duplex" :: role :: st :: nmsg :: size :: seed :: nping :: _copy =>
       match roleOf role, unhex st, nmsg.toNat?, size.toNat?, seed.toNat?, nping.toNat? with
       | some ic, some s, some n, some sz, some sd, some np =>
         if n < 1 || n > 64 || sz < 1 || sz > 2097152 || np > 5000 then "bad-op" else
